@@ -266,7 +266,10 @@ func producesStateIn(w *Walk, fns map[*ssa.Function]bool, isStateT func(types.Ty
 // ruleCookieFlightNeverResent (C13): the flight the generator tables flag as non-retransmittable
 // (the cookie request) is sent once per ClientHello: with the state machine in that flight and
 // its retransmit flag false, no handler of a timer, an acknowledgement, a peer retransmission or
-// any other received event can produce StateSending; only the preparation of a fresh flight does.
+// any other received event can produce StateSending; only the preparation of a fresh flight does -
+// and, since a lost cookie request must be recoverable, a repetition of the peer's ClientHello (a
+// received state with a handshake record flagged as retransmission): explored once with that flag
+// false and once with no handshake record present.
 func ruleCookieFlightNeverResent(c *Ctx, r *Report) {
 	const rule = "cookie-flight-never-resent"
 	states := c.enumConsts(pkgHS, "State")
@@ -315,9 +318,48 @@ func ruleCookieFlightNeverResent(c *Ctx, r *Report) {
 				continue
 			}
 			r.Sites += len(fn.Blocks)
+			// a parameter that only ever receives "the peer repeated a handshake message" (the
+			// IsRetransmit flag of the received state, or a constant)
+			peerFlag := map[*ssa.Parameter]bool{}
+			for _, p := range fn.Params {
+				if bt, ok := p.Type().Underlying().(*types.Basic); !ok || bt.Kind() != types.Bool {
+					continue
+				}
+				sites := c.CallsToName(short(fn))
+				all := len(sites) > 0
+				for _, cs := range sites {
+					cc, ok := cs.Call.(*ssa.Call)
+					idx := paramIndex(p)
+					if !ok || idx >= len(cc.Call.Args) {
+						all = false
+						continue
+					}
+					a := cc.Call.Args[idx]
+					if _, isK := a.(*ssa.Const); isK {
+						continue
+					}
+					if _, f, _, ok := fieldLoad(a); ok && f == "IsRetransmit" {
+						continue
+					}
+					all = false
+				}
+				if all {
+					peerFlag[p] = true
+				}
+			}
+			loadsHasHandshake := false
+			for _, b := range fn.Blocks {
+				for _, in := range b.Instrs {
+					if u, ok := in.(ssa.Value); ok {
+						if _, f, _, ok := fieldLoad(u); ok && f == "HasHandshake" {
+							loadsHasHandshake = true
+						}
+					}
+				}
+			}
 			for _, ck := range cookie {
 				fv := flights[ck]
-				w := &Walk{Fn: fn, Follow: followModule, Assume: func(x ssa.Value) (Val, bool) {
+				base := func(x ssa.Value) (Val, bool) {
 					if o, f, _, ok := fieldLoad(x); ok && o == pkgHS+"."+v.fsm {
 						switch f {
 						case "retransmit":
@@ -327,14 +369,41 @@ func ruleCookieFlightNeverResent(c *Ctx, r *Report) {
 						}
 					}
 					return unknown, false
+				}
+				// (i) no repeated handshake message of the peer is involved
+				w := &Walk{Fn: fn, Follow: followModule, Assume: func(x ssa.Value) (Val, bool) {
+					if val, ok := base(x); ok {
+						return val, true
+					}
+					if p, ok := x.(*ssa.Parameter); ok && peerFlag[p] {
+						return vBool(false), true
+					}
+					if _, f, _, ok := fieldLoad(x); ok && f == "IsRetransmit" {
+						return vBool(false), true
+					}
+					return unknown, false
 				}}
 				at := producesState(w, fn, isStateT, sending)
+				// (ii) the received state carries no handshake record at all (an ACK, whatever its
+				// retransmission flag says)
+				if at == nil && loadsHasHandshake {
+					w2 := &Walk{Fn: fn, Follow: followModule, Assume: func(x ssa.Value) (Val, bool) {
+						if val, ok := base(x); ok {
+							return val, true
+						}
+						if _, f, _, ok := fieldLoad(x); ok && f == "HasHandshake" {
+							return vBool(false), true
+						}
+						return unknown, false
+					}}
+					at = producesState(w2, fn, isStateT, sending)
+				}
 				n++
 				pos := c.pos(fn.Pos())
 				if at != nil {
 					pos = c.ipos(at)
 				}
-				r.Check(at == nil, rule, fmt.Sprintf("%s:%s", short(fn), ck), pos, "no re-send of the cookie request from this handler", fmt.Sprintf("%s can switch to StateSending while the state machine sits in the non-retransmittable %s (the cookie request): something other than a new ClientHello draws another cookie request from a server that has verified nothing", short(fn), ck))
+				r.Check(at == nil, rule, fmt.Sprintf("%s:%s", short(fn), ck), pos, "no re-send of the cookie request from this handler unless the peer repeated its ClientHello", fmt.Sprintf("%s can switch to StateSending while the state machine sits in the non-retransmittable %s (the cookie request) although the peer did not repeat a handshake message (a timer, an acknowledgement, an empty ACK): something other than a ClientHello draws another cookie request from a server that has verified nothing", short(fn), ck))
 			}
 		}
 	}
